@@ -111,6 +111,8 @@ type c05Script struct {
 	// Pad: extra payload bytes per event (long-lived connections that move several KiB, so that
 	// the client's scanner buffer is compacted and refilled many times between cuts).
 	Pad int `json:"pad,omitempty"`
+	// SlowCallbackUS: the client callback takes up to this many microseconds for every third event.
+	SlowCallbackUS int `json:"slow_callback_us,omitempty"`
 	Payloads bool    `json:"hostile_payloads,omitempty"`
 }
 
@@ -296,7 +298,11 @@ func runC05(sc *c05Script, rng *rand.Rand) (res c05Result) {
 		// copy: the monitor's notion of "the ID of the last dispatched event" must not share
 		// memory with whatever the library handed to the callback
 		clientLast.Store(strings.Clone(e.LastEventID))
-		clientGot.Add(1)
+		if n := clientGot.Add(1); sc.SlowCallbackUS > 0 && n%3 == 0 {
+			pmu.Unlock()
+			time.Sleep(time.Duration(1+int(n*7919)%sc.SlowCallbackUS) * time.Microsecond)
+			pmu.Lock()
+		}
 	})
 	connectDone := make(chan error, 1)
 	go func() { connectDone <- conn.Connect() }()
@@ -529,6 +535,9 @@ func genC05(rng *rand.Rand) *c05Script {
 	}
 	if strings.HasPrefix(sc.Replayer, "valid") && rng.IntN(3) > 0 {
 		sc.FakeClock = true
+	}
+	if rng.IntN(4) == 0 {
+		sc.SlowCallbackUS = 50 + rng.IntN(1500)
 	}
 	if rng.IntN(4) == 0 {
 		sc.Pad = 40 + rng.IntN(100)
